@@ -296,6 +296,41 @@ Definition add_effects (st : flat) (s : str) : list feff :=
   if gen.T17.FLAT_ADD_NEXT_ID_FIRST
   then [SetNext (id + 1); AppendRec id s]
   else [AppendRec id s; SetNext (id + 1)].
+(* remove(id) and set(id, s), also in place.  remove scans the file and overwrites
+   the id of every line that carries it with dashes, one small kernel write per
+   such line, in file order ([Dash id] = the first live record with that id
+   disappears); set = remove through the same file object, then the new line is
+   appended at the end. *)
+Fixpoint remove_first (id : N) (recs : list (N * str)) : list (N * str) :=
+  match recs with
+  | [] => []
+  | r :: rest => if N.eqb (fst r) id then rest else r :: remove_first id rest
+  end.
+Definition without (id : N) (recs : list (N * str)) : list (N * str) :=
+  filter (fun r => negb (N.eqb (fst r) id)) recs.
+Definition count_id (id : N) (recs : list (N * str)) : nat :=
+  length (filter (fun r => N.eqb (fst r) id) recs).
+Inductive feff2 : Type := Dash (id : N) | Append2 (id : N) (s : str).
+Definition fapply2_1 (st : flat) (e : feff2) : flat :=
+  match e with
+  | Dash i => Flat (fl_next st) (remove_first i (fl_recs st))
+  | Append2 i s => Flat (fl_next st) (fl_recs st ++ [(i, s)])
+  end.
+Definition fapply2 (es : list feff2) (st : flat) : flat := fold_left fapply2_1 es st.
+Definition remove_effects (st : flat) (id : N) : list feff2 :=
+  repeat (Dash id) (count_id id (fl_recs st)).
+Definition set_effects (st : flat) (id : N) (s : str) : list feff2 :=
+  remove_effects st id ++ [Append2 id s].
+(* the versions a reader may legitimately find *)
+Definition removed_recs (st : flat) (id : N) : list (N * str) := without id (fl_recs st).
+Definition set_recs (st : flat) (id : N) (s : str) : list (N * str) := without id (fl_recs st) ++ [(id, s)].
+(* ids are unique (what add() maintains) *)
+Fixpoint ids_unique (recs : list (N * str)) : bool :=
+  match recs with
+  | [] => true
+  | r :: rest => negb (existsb (fun x => N.eqb (fst x) (fst r)) rest) && ids_unique rest
+  end.
+
 (* every id in the file is below the next id: add() can never hand out an id twice *)
 Definition flat_ok (st : flat) : bool :=
   forallb (fun r => N.ltb (fst r) (fl_next st)) (fl_recs st).
@@ -359,6 +394,7 @@ Fixpoint states_at (fuel i : nat) (es : list eff) (f : fs) (ks : list nat) (out 
    op 3: same input, states computed as  apply (firstn k es) f0
    op 4: (fn tok now cfg fs0 ops chunk k inited full_temp) -> (effects-of-the-interrupted-flush final-state)
    op 6: (next recs record k) -> flat file (next recs ok) after the first k kernel writes of FlatfileMapping.add
+   op 7: (next recs is_set id record k) -> (number of kernel writes, records after the first k) of FlatfileMapping.set / remove
    op 5: text -> FlatfileMapping records ((id record) ...) or an exception
    op 1: (a b) -> path_join a b ; op 2: s -> basename s *)
 Definition vState (full : bool) (cfg : config) (fn t b : path) (f : fs) : value :=
@@ -401,6 +437,11 @@ Definition run (v : value) : value :=
   | 6 => let st := Flat (gN (nth_v 0 p)) (map (fun r => (gN (nth_v 0 r), gS (nth_v 1 r))) (gL (nth_v 1 p))) in
          let st' := fapply (firstn (N.to_nat (gN (nth_v 3 p))) (add_effects st (gS (nth_v 2 p)))) st in
          L [vN (fl_next st'); L (map (fun r => L [vN (fst r); vS (snd r)]) (fl_recs st')); vB (flat_ok st')]
+  | 7 => let st := Flat (gN (nth_v 0 p)) (map (fun r => (gN (nth_v 0 r), gS (nth_v 1 r))) (gL (nth_v 1 p))) in
+         let id := gN (nth_v 3 p) in
+         let es := if gB (nth_v 2 p) then set_effects st id (gS (nth_v 4 p)) else remove_effects st id in
+         let st' := fapply2 (firstn (N.to_nat (gN (nth_v 5 p))) es) st in
+         L [vN (N.of_nat (length es)); L (map (fun r => L [vN (fst r); vS (snd r)]) (fl_recs st'))]
   | 5 => vR (fun l => L (map (fun kv => L [vS (fst kv); vS (snd kv)]) l)) (flat_load (gS p))
   | 1 => vS (path_join (gS (nth_v 0 p)) (gS (nth_v 1 p)))
   | 2 => vS (basename (gS p))
